@@ -158,7 +158,9 @@ def run_tlc(
                 f.write(p.stdout)
         except OSError:
             pass
-        raise TLCError(f"TLC failed (rc={p.returncode}) on {module} / {cfg}:\n{r.error}")
+        err = TLCError(f"TLC failed (rc={p.returncode}) on {module} / {cfg}:\n{r.error}")
+        err.out = p.stdout
+        raise err
     return r
 
 
